@@ -35,19 +35,19 @@ TEXT = {
 
 TEXT.update({
     "C03": {
-        "level_text": "Held on every monitored sign/verify: byte-exact equality with an independent GB/T 32918.2 signer for injected nonces (incl. the GM/T 0003.5 example and crafted e >= n digests), range + cross-verification + nonce-used==nonce-drawn for free nonces, acceptance of reference-made and OpenSSL-made signatures, ID length limits, messages up to 2^29 bytes (SM3 bit length beyond 32 bits).",
+        "level_text": "Held on every monitored sign/verify: byte-exact equality with an independent GB/T 32918.2 signer for injected nonces (incl. the GM/T 0003.5 example and crafted e >= n digests), range + cross-verification + nonce-used==nonce-drawn for free nonces, acceptance of reference-made and OpenSSL-made signatures, ID length limits, messages up to 2^29 bytes (SM3 bit length beyond 32 bits). Histories: opposite keys d and n - d with one ID used alternately, a valid call right after a refused call.",
         "design_ref": "DESIGN.md section 6 C03",
         "level_note": "Trusted: affine BigUint SM2 reference (Annex-anchored), OpenSSL corpus, RNG hook. Retry branches unreachable.",
         "technique": "runtime differential monitor with RNG-hook nonce injection + cross-verification",
     },
     "C04": {
-        "level_text": "Fault enumeration over the mutated-signature space of many valid signatures: every bit flip (exhaustive per sample), boundary substitutions, modular aliases (crafted s+n), altered message/ID/key, every encoding length 0..=130, a 2^29-byte message; the library must never accept what the reference verifier rejects and must never panic.",
+        "level_text": "Fault enumeration over the mutated-signature space of many valid signatures: every bit flip (exhaustive per sample), boundary substitutions, modular aliases (crafted s+n), altered message/ID/key, every encoding length 0..=130, a 2^29-byte message; the library must never accept what the reference verifier rejects and must never panic. A signature made by n - d over the other key's ZA offered under -P right after a verification under P.",
         "design_ref": "DESIGN.md section 6 C04",
         "level_note": "Trusted: reference verifier. One-sided rule except for the untouched signature. t=0 clause undecidable (stated).",
         "technique": "runtime fault-injection monitor on signature bytes with reference-verifier oracle",
     },
     "C05": {
-        "level_text": "Held on every monitored encrypt/decrypt/kdf: exact ciphertext equality with the reference for injected k in all four layouts over every length 1..=300, interop both ways with the reference and with OpenSSL ciphertexts, KDF equality for every klen 1..=1100.",
+        "level_text": "Held on every monitored encrypt/decrypt/kdf: exact ciphertext equality with the reference for injected k in all four layouts over every length 1..=300, interop both ways with the reference and with OpenSSL ciphertexts, KDF equality for every klen 1..=1100. Histories: opposite recipient keys alternately on one thread; a message of 2^24 + 1 bytes.",
         "design_ref": "DESIGN.md section 6 C05",
         "level_note": "Trusted: reference PKE/KDF (Annex-anchored), OpenSSL corpus, RNG hook.",
         "technique": "runtime differential monitor with RNG-hook k injection + interop corpus",
@@ -59,7 +59,7 @@ TEXT.update({
         "technique": "runtime fault-injection monitor on ciphertext bytes incl. key-assisted crafted invalid points",
     },
     "C11": {
-        "level_text": "Held on every monitored field/point/scalar-mul call against affine big-integer arithmetic: boundary and crafted operands for all field functions, the complete fixed-base table (exhaustive), all representation classes of the group law, crafted scalars (n+j sweep).",
+        "level_text": "Held on every monitored field/point/scalar-mul call against affine big-integer arithmetic: boundary and crafted operands for all field functions, the complete fixed-base table (exhaustive), all representation classes of the group law, crafted scalars (n+j sweep). Related operands: -P stored as (X, Y, -Z) right after P, two points with the same stored Z.",
         "design_ref": "DESIGN.md section 6 C11",
         "level_note": "Trusted: BigUint arithmetic; library internals reached through cfg(gm_rs_verif) wrappers.",
         "technique": "runtime differential monitor of arithmetic calls against big-integer reference (table part exhaustive)",
@@ -74,7 +74,7 @@ TEXT.update({
         "technique": "runtime differential monitor with RNG-hook r injection + fault injection on (h,S)",
     },
     "C10": {
-        "level_text": "Held on every monitored SM9 encrypt/decrypt for all message lengths 1..=255: exact ciphertext equality with the reference (incl. the Annex example), interop both ways, and tamper evidence over all bit flips/truncations plus crafted invalid C1 with valid tags.",
+        "level_text": "Held on every monitored SM9 encrypt/decrypt for all message lengths 1..=255: exact ciphertext equality with the reference (incl. the Annex example), interop both ways, and tamper evidence over all bit flips/truncations plus crafted invalid C1 with valid tags. Encryption under opposite master keys alternately; C3 tampered with one mask on bytes 4 / 8 / 16 / 24 apart.",
         "design_ref": "DESIGN.md section 6 C10",
         "level_note": "Trusted: textbook SM9 reference; crafted tags use the library's own pairing wrapper (hook) on the invalid input.",
         "technique": "runtime differential monitor with RNG-hook r injection + ciphertext fault injection",
@@ -95,13 +95,13 @@ TEXT.update({
         "technique": "runtime differential monitor of pairing values against a textbook reference + algebraic identity monitors",
     },
     "C13": {
-        "level_text": "Held on every monitored tower / mod-N / group operation against polynomial-basis and big-integer arithmetic; zero-component subsets, Booth digits and both fixed-base tables are enumerated exhaustively. One known finding (G2 point_equals ignores y) is recorded, not repaired.",
+        "level_text": "Held on every monitored tower / mod-N / group operation against polynomial-basis and big-integer arithmetic; zero-component subsets, Booth digits and both fixed-base tables are enumerated exhaustively. One known finding (G2 point_equals ignores y) is recorded, not repaired. Related operands: -P stored as (X, Y, -Z) right after P, two points with the same stored Z, P + (zeta x, y).",
         "design_ref": "DESIGN.md section 6 C13",
         "level_note": "Trusted: Fp[w]/(w^12+2) schoolbook arithmetic and affine group law in BigUint; library internals via cfg(gm_rs_verif) constructors.",
         "technique": "runtime differential monitor of arithmetic calls against polynomial-basis reference (finite sub-spaces exhaustive)",
     },
     "C16": {
-        "level_text": "Held on every monitored hash-to-range reduction (crafted quotient-edge inputs), H1/H2 evaluation and key extraction (incl. the failure case H1+k=0 and its neighbours, Annex keys) against big-integer reduction and the reference group law.",
+        "level_text": "Held on every monitored hash-to-range reduction (crafted quotient-edge inputs), H1/H2 evaluation and key extraction (incl. the failure case H1+k=0 and its neighbours, Annex keys) against big-integer reduction and the reference group law. Consecutive H1 / H2 calls on equal-length inputs that differ in one byte.",
         "design_ref": "DESIGN.md section 6 C16",
         "level_note": "Trusted: BigUint reduction, reference SM3, reference G1/G2.",
         "technique": "runtime differential monitor with crafted boundary inputs",
@@ -110,7 +110,7 @@ TEXT.update({
 
 TEXT.update({
     "C15": {
-        "level_text": "Held on every monitored four-step key-agreement history: all exchanged and derived values equal an independent GB/T 32918.3 run (incl. the GM/T 0003.5 example), honest runs agree with both confirmations true, and for all 16 tamper subsets x 4 kinds the party predicted by the reference history rejects.",
+        "level_text": "Held on every monitored four-step key-agreement history: all exchanged and derived values equal an independent GB/T 32918.3 run (incl. the GM/T 0003.5 example), honest runs agree with both confirmations true, and for all 16 tamper subsets x 4 kinds the party predicted by the reference history rejects. Opposite static keys with one identity; replays of steps 3 and 4 with an altered message after an honest run.",
         "design_ref": "DESIGN.md section 6 C15",
         "level_note": "Trusted: affine BigUint SM2 reference; RNG hook; hook accessor for the crate-private derived key.",
         "technique": "runtime history monitor of the 4-step protocol against a reference run, with in-transit tampering of every message subset",
